@@ -451,6 +451,26 @@ theorem extract_subgrid_entries_from_parent (t : Topo) (cells : List Nat) (e' : 
   · have : (⟨e.face, c, e.sign⟩ : Inc) = e := by cases e; simp_all
     simp only [this]; exact hecf
 
+/-- … and in a subgrid every face has a cell, for ANY parent and cell list (the face map keeps only
+    faces touched by the cells): the hypothesis `NoOrphan` is discharged for extracted grids. -/
+theorem extract_subgrid_no_orphan (t : Topo) (cells : List Nat) : NoOrphan (extractSubgrid t cells).1 := by
+  intro f' hf'
+  simp only [extractSubgrid, List.mem_range] at hf'
+  have hnd := nodup_uniqueSorted ((subEntries t.cf 0 (isort cells)).map (·.face))
+  have hmem : (uniqueSorted ((subEntries t.cf 0 (isort cells)).map (·.face)))[f'] ∈
+      uniqueSorted ((subEntries t.cf 0 (isort cells)).map (·.face)) := List.getElem_mem hf'
+  have hidx := idxOf_getElem_of_nodup hnd f' hf'
+  rw [mem_uniqueSorted] at hmem
+  obtain ⟨x, hx, hxf⟩ := List.mem_map.mp hmem
+  unfold count
+  apply List.length_pos_of_mem (a := ⟨f', x.cell, x.sign⟩)
+  rw [mem_entriesOf]
+  refine ⟨?_, rfl⟩
+  simp only [extractSubgrid]
+  refine List.mem_map.mpr ⟨x, hx, ?_⟩
+  simp only [Inc.mk.injEq, and_true]
+  rw [hxf]; exact hidx
+
 /-- Splitting a face along a fracture keeps the incidence well-formed … -/
 theorem split_face_wf (t : Topo) (h : WF t) (f c : Nat) : WF (splitFace t f c) :=
   wf_splitFace t h f c
@@ -504,6 +524,71 @@ theorem split_faces_become_boundary (t : Topo) (h : WF t) (hd : 0 < t.dim) (f c 
       rw [hex] at this
       simp only at this
       omega
+
+/-! ### neighbouring entry points: trace operator, node queries, the 1-d constructor -/
+
+/-- `Grid.trace(dim)` (dim ≥ 1) on a list of boundary faces: it succeeds, every stored entry is a
+    unit entry `(f·dim + k, c·dim + k)` for a listed face f, its adjacent cell c and a component k,
+    and every such position is present. -/
+theorem trace_spec (t : Topo) (bf : List Nat) (d : Nat) (hb : ∀ f ∈ bf, f ∈ boundaryFaces t) :
+    ∃ tr, trace t bf d = some tr ∧
+      (∀ x ∈ tr, ∃ f c s k, f ∈ bf ∧ k < d ∧ (⟨f, c, s⟩ : Inc) ∈ t.cf ∧ x = (f * d + k, c * d + k, 1)) ∧
+      (∀ f ∈ bf, ∀ k, k < d → ∃ c s, (⟨f, c, s⟩ : Inc) ∈ t.cf ∧ (f * d + k, c * d + k, 1) ∈ tr) := by
+  obtain ⟨r, hr, hlen, hspec⟩ := signs_cells_boundary_spec t bf hb
+  refine ⟨(bf.zip r).flatMap (fun p => (List.range d).map (fun k => (p.1 * d + k, p.2.2 * d + k, (1 : Int)))),
+    by simp only [trace, hr], ?_, ?_⟩
+  · intro x hx
+    simp only [List.mem_flatMap] at hx
+    obtain ⟨p, hp, hx⟩ := hx
+    obtain ⟨k, hk, rfl⟩ := (mem_trace_block _ _ _ x).mp hx
+    obtain ⟨i, hi⟩ := List.mem_iff_getElem?.mp hp
+    rw [List.getElem?_zip_eq_some] at hi
+    exact ⟨p.1, p.2.2, p.2.1, k, List.mem_of_getElem? hi.1, hk, hspec i p.1 p.2 hi.1 hi.2, rfl⟩
+  · intro f hf k hk
+    obtain ⟨i, hi⟩ := List.mem_iff_getElem?.mp hf
+    have hlt : i < r.length := by
+      rw [hlen]
+      rcases Nat.lt_or_ge i bf.length with h | h
+      · exact h
+      · rw [List.getElem?_eq_none h] at hi; cases hi
+    have hri : r[i]? = some r[i] := List.getElem?_eq_getElem hlt
+    refine ⟨r[i].2, r[i].1, hspec i f r[i] hi hri, ?_⟩
+    simp only [List.mem_flatMap]
+    refine ⟨(f, r[i]), ?_, (mem_trace_block _ _ _ _).mpr ⟨k, hk, rfl⟩⟩
+    exact List.mem_iff_getElem?.mpr ⟨i, List.getElem?_zip_eq_some.mpr ⟨hi, hri⟩⟩
+
+/-- `trace` raises ValueError when the tagged faces contain an internal face. -/
+theorem trace_internal_errors (t : Topo) (hno : NoOrphan t) (bf : List Nat) (d : Nat)
+    (hr : ∀ f ∈ bf, f < t.nf) (hint : ∃ f ∈ bf, 2 ≤ count t f) : trace t bf d = none := by
+  simp only [trace, signs_cells_internal_errors t hno bf hr hint]
+
+/-- `get_internal_nodes` = the nodes that are not domain-boundary nodes. -/
+theorem internal_nodes_spec (t : Topo) (tg : Tags) (b : List Bool)
+    (hb : tg.get "domain_boundary_nodes" = some b) :
+    ∃ l, getInternalNodes t tg = some l ∧ ∀ n, n ∈ l ↔ n < t.nn ∧ b[n]? ≠ some true := by
+  refine ⟨(List.range t.nn).filter (fun n => !(indicesOf b).contains n),
+    by simp only [getInternalNodes, getTagged, hb, Option.map_some], ?_⟩
+  intro n
+  simp only [List.mem_filter, List.mem_range, Bool.not_eq_true']
+  rw [ne_eq, ← mem_indicesOf]
+  constructor
+  · rintro ⟨h1, h2⟩
+    refine ⟨h1, fun hm => ?_⟩
+    have := List.contains_iff_mem.mpr hm
+    rw [h2] at this; cases this
+  · rintro ⟨h1, h2⟩
+    refine ⟨h1, ?_⟩
+    cases hc : (indicesOf b).contains n with
+    | false => rfl
+    | true => exact absurd (List.contains_iff_mem.mp hc) h2
+
+/-- The 1-d constructor (`TensorGrid._create_1d_grid`, hence `CartGrid(n)`) builds a well-formed
+    incidence for EVERY number of cells: the hypothesis `WF` of the theorems above is discharged for
+    this family of grids … -/
+theorem line1d_wf (n : Nat) : WF (line1d n) := wf_line1d n
+
+/-- … and every face has a cell as soon as there is one cell. -/
+theorem line1d_no_orphan (n : Nat) (hn : 1 ≤ n) : NoOrphan (line1d n) := noOrphan_line1d n hn
 
 /-! ### non-vacuity: concrete grids satisfy the hypotheses, and the queries give what porepy gives -/
 
@@ -561,11 +646,20 @@ example : (addTags [("a", [true]), ("b", [false])] [("b", [true, true]), ("c", [
 example : extractSubgrid exCart [1] =
     ({ dim := 2, nf := 4, nc := 1, nn := 4, cf := [⟨0, 0, -1⟩, ⟨1, 0, 1⟩, ⟨2, 0, -1⟩, ⟨3, 0, 1⟩],
        fn := [[0, 2], [1, 3], [0, 1], [2, 3]] }, [1, 2, 4, 6], [1, 2, 4, 5]) ∧
-    WF (extractSubgrid exCart [1]).1 ∧ boundaryFaces (extractSubgrid exCart [1]).1 = [0, 1, 2, 3] := by
+    WF (extractSubgrid exCart [1]).1 ∧ NoOrphan (extractSubgrid exCart [1]).1 ∧ boundaryFaces (extractSubgrid exCart [1]).1 = [0, 1, 2, 3] := by
   decide +kernel
 
 example : WF (splitFace exCart 1 1) ∧ boundaryFaces (splitFace exCart 1 1) = [0, 1, 2, 3, 4, 5, 6, 7] ∧
     (0, 1) ∉ connPairs (splitFace exCart 1 1) := by decide +kernel
+
+example : line1d 3 = exLine ∧ boundaryFaces (line1d 5) = [0, 5] ∧ ¬ NoOrphan (line1d 0) := by decide +kernel
+
+example : trace exCart (boundaryFaces exCart) 1 = some [(0, 0, 1), (2, 1, 1), (3, 0, 1), (4, 1, 1), (5, 0, 1), (6, 1, 1)] ∧
+    trace exCart [1] 2 = none ∧
+    trace exLine [3, 0] 2 = some [(6, 4, 1), (7, 5, 1), (0, 0, 1), (1, 1, 1)] := by decide +kernel
+
+example : (freshTags exLine).bind (getInternalNodes exLine) = some [1, 2] ∧
+    (freshTags exLine).bind getAllBoundaryNodes = some [0, 3] := by decide +kernel
 
 /-- the well-formedness hypothesis is needed: on a face with three cells (+, −, +), which the
     orientation check of the `Grid` constructor accepts, the dense array forgets cell 0 -/
